@@ -12,7 +12,7 @@ CONSTANT RenameSites     \* sites at which the reference merge rewrites referenc
 VARIABLE sc
 AllButInstanceTypeRef == SiteIds \ {"INSTANCE.type_ref"}
 Modes == {"plain", "conflict", "twin", "homonym", "premerge", "premerge_b", "premerge_ab", "owner_conflict", "owner_union",
-          "owner_union_overlap", "conflict_owner_twin"}
+          "owner_union_overlap", "conflict_owner_twin", "owner_union_a_only", "owner_union_b_only"}
 Renamable(ns) == ns \notin ({"FUNCTION", "GROUP", "USER_RIGHTS", "MOD_COMMON", "VARIANT_CODING"} \cup LocalNs)
 SeqRange(s) == {s[i] : i \in 1..Len(s)}
 
@@ -30,7 +30,7 @@ Valid(x) ==
     /\ (x.pos > 1 => SiteIsList[x.site])
     /\ (x.mode = "owner_conflict" => Renamable(ok) /\ x.pos = 1)
     /\ (x.mode = "conflict_owner_twin" => Renamable(ok) /\ x.pos = 1 /\ x.ak = x.tk /\ SiteOwner[x.site] \notin UnionKinds)
-    /\ (x.mode \in {"owner_union", "owner_union_overlap"} => SiteOwner[x.site] \in UnionKinds /\ x.pos = 1)
+    /\ (x.mode \in {"owner_union", "owner_union_overlap", "owner_union_a_only", "owner_union_b_only"} => SiteOwner[x.site] \in UnionKinds /\ x.pos = 1)
     /\ (x.mode = "owner_union_overlap" => SiteIsList[x.site])
     /\ (x.mode = "twin" => n \notin LocalNs)
     /\ (x.mode \in {"premerge", "premerge_b", "premerge_ab"} => x.pos = 1 /\ x.ak = x.tk)
@@ -71,11 +71,14 @@ CaseOf(x) ==
                [] x.mode = "conflict_owner_twin" ->
                      <<El(x.ak, "t1", 30, <<>>)>> \o (IF SiteIsList[s] THEN <<El(x.tk, "x1", 21, <<>>), El(x.tk, "y1", 22, <<>>)>> ELSE <<>>) \o <<owner>>
                [] x.mode = "owner_union" -> <<El(x.tk, "z1", 34, <<>>), El(okind, "o1", 36, <<<<s, <<"z1">>>>>>)>>
+               \* only one of the two owners of the same name holds a list at this site (the other one differs in its content)
+               [] x.mode = "owner_union_a_only" -> <<El(x.tk, "z1", 34, <<>>), El(okind, "o1", 36, <<<<s, <<"z1">>>>>>)>>
+               [] x.mode = "owner_union_b_only" -> <<El(okind, "o1", 36, <<>>)>>
                \* both owners hold t1 and y1 (identical twins in A), A's list has another member between them
                [] x.mode = "owner_union_overlap" ->
                      <<El(x.tk, "t1", 20, <<>>), El(x.tk, "y1", 22, <<>>), El(x.tk, "z1", 34, <<>>),
                        El(okind, "o1", 36, <<<<s, <<"t1", "z1", "y1">>>>>>)>>
-    IN [id |-> x, A |-> a, B |-> <<owner>> \o targets \o bextra]
+    IN [id |-> x, A |-> a, B |-> IF x.mode = "owner_union_a_only" THEN <<El(okind, "o1", 10, <<>>)>> ELSE <<owner>> \o targets \o bextra]
 
 \* abstract module -> module graph
 FlatRefs(M) == UNION {UNION {{<<M[i].refs[j][1], M[i].kind, M[i].name, M[i].refs[j][2][k]>> :
